@@ -1761,9 +1761,7 @@ class SpaceUpdater(SharedSpaceOperations):
                     if k in seen or r.is_derived():
                         continue
                     seen.add(k)
-                    mode = sub.own_refs[k].refmode if (
-                        k in sub.own_refs) else r.refmode
-                    if (mode == "relative" and r.has_interface() and
+                    if (r.refmode == "relative" and r.has_interface() and
                             not self.get_relative_interface(sub, r)[0]):
                         raise ValueError(
                             "Relative reference %s.%s out of scope" %
